@@ -48,7 +48,7 @@ def extra_files():
     out.append(('empty/no-type-only', [G.seg([(A, ['NODATA'])])]))
     out.append(('empty/file-without-objects', [G.seg([])]))
     out.append(('empty/group-only', [G.seg([("/'g'", ['NODATA'], [['p', 'String', '61']])])]))
-    cjk = ['日本語日本語日本語', '😀😀😀😀', '', 'ЖЖЖЖ', '語']
+    cjk = ['日本語日本語日本語', '😀😀😀😀', '語語語']   # UTF-8 size more than twice the character count
     hx = [x.encode('utf-8').hex() for x in cjk]
     out.append(('strings/multibyte', [G.seg([(A, ['FULL', 'String', len(cjk), sum(len(x) // 2 for x in hx), hx]), (B, ['FULL', 'Int8', 1])], chunks=2)]))
     out.append(('names/quotes', [G.seg([("/'it''s'/'a/b'", ['FULL', 'Int16', 2]), ("/'it''s'/''", ['FULL', 'Int16', 1])])]))
